@@ -593,6 +593,47 @@ def check_class_level_scenarios(ctx):
             history.append(('clear', None))
 
 
+def check_logging_commands(ctx):
+    """log() and debug(): each call (each item, for debug) adds exactly one feedback to the triggered list, and the message that was
+    given is the message delivered"""
+    from pedal.core import commands as cmd
+    from pedal.core.commands import clear_report
+    from pedal.core.report import MAIN_REPORT
+    rng = ctx.rng
+    report = MAIN_REPORT
+    clear_report()
+    texts = ['value is 5', 'x', 'two words', 'with {braces}', 'Ünicode', '']
+    for t in range(ctx.pick(30, 300)):
+        which = rng.choice(['log', 'debug'])
+        items = [rng.choice(texts) for _ in range(rng.randint(1, 3))]
+        case = {'scenario': 'logging-commands', 'command': which, 'items': items}
+        n0, i0 = len(report.feedback), len(report.ignored_feedback)
+        try:
+            if which == 'log':
+                cmd.log(*items)
+                want = [' '.join(items)]
+            else:
+                cmd.debug(*items)
+                want = list(items)
+        except Exception as e:
+            ctx.violation('C20|constructor-raised|%s|%s' % (type(e).__name__, which), case, traceback.format_exc()[-300:])
+            continue
+        new = report.feedback[n0:]
+        ctx.count('constructions_driven')
+        ctx.count('logging_commands_checked')
+        ctx.case('logging:%s:%r' % (which, items))
+        if len(new) != len(want) or len(report.ignored_feedback) != i0:
+            ctx.violation('C20|recorded-%d-times|%s' % (len(new), which), case, 'expected %d feedback objects on the triggered list, found %d (untriggered list grew by %d)'
+                          % (len(want), len(new), len(report.ignored_feedback) - i0))
+            continue
+        got = [f.message for f in new]
+        ctx.count('renderings_compared', len(want))
+        if got != want:
+            ctx.violation('C20|message-differs|explicit-message|%s' % which, case, 'given %r, delivered %r' % (want, got))
+        if t % 40 == 39:
+            clear_report()
+
+
 def run(ctx):
     import_everything()
     from monitors import feedback_mon
@@ -605,6 +646,7 @@ def run(ctx):
     feedback_mon.install(ctx, 'C20')
     run_constructions(ctx, ctx.pick(400, 12000))
     check_class_level_scenarios(ctx)
+    check_logging_commands(ctx)
     run_overrides(ctx, ctx.pick(60, 2500), snap, targets)
 
 
@@ -614,7 +656,9 @@ def replay(ctx, case):
     targets = override_targets()
     snap = snapshot_classes()
     feedback_mon.install(ctx, 'C20')
-    if case.get('scenario') in ('formatter-with-own-formats', 'class-with-constant-fields'):
+    if case.get('scenario') == 'logging-commands':
+        check_logging_commands(ctx)
+    elif case.get('scenario') in ('formatter-with-own-formats', 'class-with-constant-fields'):
         check_class_level_scenarios(ctx)
     elif 'sequence' in case:
         check_override_sequence(ctx, [tuple(s) for s in case['sequence']], dict(targets), snap)
